@@ -26,6 +26,9 @@ pub struct GenCfg {
     /// allow the right branch of a par to use variables defined in its left branch (a join: the
     /// call waits until the data reaches its peer, which may never happen)
     pub par_joins: bool,
+    /// the C16 fragment, strictly: nothing that can fail sits under a par (including the par of a
+    /// `(fold .. (par body (next)))`) unless an xor lies in between
+    pub strict_guard: bool,
 }
 
 impl GenCfg {
@@ -47,6 +50,7 @@ impl GenCfg {
             error_vals: false,
             var_targets: true,
             par_joins: true,
+            strict_guard: false,
         }
     }
     pub fn fstream(n_peers: usize, budget: usize) -> GenCfg {
@@ -643,10 +647,15 @@ impl<'a> Gen<'a> {
         self.iters.push(it.clone());
         let body = self.gen_ins(ctx);
         let nx = Ins::Next(it.clone());
-        let shaped = match self.rng.below(10) {
+        let shape = self.rng.below(10);
+        // a body generated as "may fail" must not end up under the fold's par
+        let no_par = self.cfg.strict_guard && ctx.guard;
+        let shaped = match shape {
             0..=4 => seq(body, nx),
+            5..=7 if no_par => seq(body, nx),
             5..=7 => par(body, nx),
             8 => seq(nx, body),
+            _ if no_par => seq(nx, body),
             _ => par(nx, body),
         };
         self.iters.pop();
